@@ -51,6 +51,13 @@ def check(ctx):
         ctx.check(now_ok, R, "C10/auth-cookie-fields/timestamp", st,
                   reason="AuthCookie.timestamp is %s, expected seconds since UNIX_EPOCH of SystemTime::now()" % render(ts, maxdepth=4),
                   detail="timestamp = now().duration_since(UNIX_EPOCH).as_secs()")
+        # ... taken when the cookie is issued (after routing chose the target), not carried over from earlier in the login
+        nows = [c[4] for c in calls_in(ts, "SystemTime::now")]
+        late = bool(nows) and sbb is not None and all(always_before(g, sbb, nb) for nb in nows)
+        ctx.check(late, R, "C10/auth-cookie-fields/timestamp-is-issue-time", st,
+                  reason="AuthCookie.timestamp reuses a clock reading taken at %s, before routing finished: the cookie is back-dated by the time login and routing took, so it expires early"
+                         % [site(body, nb) for nb in nows],
+                  detail="timestamp read from the clock after the target was selected")
         tg = flow.strip(f.get("target", ("unknown", "")))
         tok = False
         if tg[0] == "agg" and tg[1].endswith("Option::Some"):
